@@ -61,3 +61,44 @@ func VerifH_C09_hostile_packets() {
 		verif.Assert(len(bft.flat()) == n+1, "and can still send")
 	})
 }
+
+// VerifH_C09_heartbeat_races_close: a heartbeat packet from the client (pong on revision
+// 4, ping on revision 3) is being handled when the same session is closed from elsewhere
+// (peer gone, transport error, application close) at any yield point of the handler (its
+// debug-log calls and the application's 'packet' listener): the handler must not crash,
+// and the session closes exactly once.
+func VerifH_C09_heartbeat_races_close() {
+	verif.RunTimed(func() {
+		proto := [2]int{4, 3}[verif.Choose(2)]
+		w := newHbWorld(proto, 1000, 500)
+		w.sock.On("packet", func(...any) { verif.Yield("packet listener") })
+		cause := verif.Choose(3)
+		verif.Event("the session is closed from elsewhere", func() {
+			switch cause {
+			case 0:
+				w.ft.OnClose()
+			case 1:
+				w.sock.Close(true)
+			case 2:
+				w.ft.OnError("gone", nil)
+			}
+		})
+		if proto == 4 && verif.Bool() {
+			verif.SleepUntil(1000) // the server's ping is outstanding
+		}
+		verif.InjectBudget(1)
+		if proto == 4 {
+			w.deliver(packet.PONG)
+		} else {
+			w.deliver(packet.PING)
+		}
+		verif.InjectBudget(0)
+		verif.Settle()
+		verif.SleepUntil(verif.Now() + 5000)
+		verif.Settle()
+		verif.Assert(w.rec.count("close") <= 1, "at most one close event")
+		if w.rec.count("close") == 1 {
+			verif.Assert(w.sock.ReadyState() == "closed", "closed")
+		}
+	})
+}
